@@ -75,7 +75,7 @@ func genFsSpecWorkload(w *Tape) *fsSpecWorkload {
 		var scripts []fsScript
 		n := w.Range(2, 8)
 		for j := 0; j < n; j++ {
-			s := fsScript{Payload: w.Draw(4), End: []int{0, 0, 0, 1, 2, 3, 4, 5}[w.Draw(8)], Tomb: []int{0, 0, 0, 1, 1, 2}[w.Draw(6)], ReadBack: w.Bool()}
+			s := fsScript{Payload: w.Draw(4), End: []int{0, 0, 0, 1, 2, 3, 4, 5, 6, 7}[w.Draw(10)], Tomb: []int{0, 0, 0, 1, 1, 2}[w.Draw(6)], ReadBack: w.Bool()}
 			nc := w.Range(1, 4)
 			for k := 0; k < nc; k++ {
 				s.Chunks = append(s.Chunks, []int{0, 1, 7, 64, 500}[w.Draw(5)])
@@ -246,6 +246,16 @@ func (st *fsSpecState) writer(wi int, scripts []fsScript, names *[]int) {
 		case sc.End == 5:
 			doAbort()
 			doClose() // Close after Abort must not publish anything
+		case sc.End == 6:
+			// A redundant Close followed by Abort must leave a published file alone.
+			doClose()
+			doClose()
+			doAbort()
+		case sc.End == 7:
+			doClose()
+			doAbort()
+			doClose()
+			doAbort()
 		}
 		if sc.ReadBack {
 			simrt.Gate("op", fmt.Sprintf("w%d open %d", wi, si), nil)
